@@ -4,6 +4,7 @@ package gad
 
 import (
 	"math/big"
+	"sync"
 
 	"verif/eng"
 
@@ -18,12 +19,12 @@ type Fn func(api frontend.API, in []frontend.Variable) []frontend.Variable
 type Circuit struct {
 	In  []frontend.Variable
 	Exp []frontend.Variable
-	F   Fn                   `gnark:"-"`
+	FID int                  `gnark:"-"` // registry id of the gadget closure (func fields break gnark's circuit cloning)
 	Out *[]frontend.Variable `gnark:"-"`
 }
 
 func (c *Circuit) Define(api frontend.API) error {
-	out := c.F(api, c.In)
+	out := lookup(c.FID)(api, c.In)
 	if c.Out != nil {
 		*c.Out = out
 	}
@@ -36,6 +37,31 @@ func (c *Circuit) Define(api frontend.API) error {
 		}
 	}
 	return nil
+}
+
+var (
+	regMu sync.Mutex
+	reg   = map[int]Fn{}
+	regN  int
+)
+
+// Register stores a gadget closure and returns its id; Unregister drops it.
+func Register(f Fn) int {
+	regMu.Lock()
+	defer regMu.Unlock()
+	regN++
+	reg[regN] = f
+	return regN
+}
+func Unregister(id int) { regMu.Lock(); delete(reg, id); regMu.Unlock() }
+func lookup(id int) Fn {
+	regMu.Lock()
+	defer regMu.Unlock()
+	f := reg[id]
+	if f == nil {
+		panic("gad: unknown gadget id")
+	}
+	return f
 }
 
 func vars(n int) []frontend.Variable {
@@ -63,7 +89,9 @@ func Run(opt eng.Options, in []*big.Int, f Fn) (eng.Result, []*big.Int) {
 // RunExp additionally asserts the outputs equal to exp inside the circuit.
 func RunExp(opt eng.Options, in, exp []*big.Int, f Fn) (eng.Result, []*big.Int) {
 	var outs []frontend.Variable
-	tmpl := &Circuit{In: vars(len(in)), Exp: vars(len(exp)), F: f, Out: &outs}
+	id := Register(f)
+	defer Unregister(id)
+	tmpl := &Circuit{In: vars(len(in)), Exp: vars(len(exp)), FID: id, Out: &outs}
 	asg := &Circuit{In: toVars(in), Exp: toVars(exp)}
 	res := eng.Run(tmpl, asg, opt)
 	if res.Outcome != eng.Accept {
